@@ -8,6 +8,7 @@
   a valid index of the axis.
 -/
 import Scico.Proofs.Shape
+import Scico.Proofs.OpAlgReject
 
 namespace Scico.Props.C12
 open Scico.Shape
@@ -69,5 +70,83 @@ theorem C12_sliceLen_range (n : Nat) (sl : PySlice) (k : Int) (h : sliceLen n sl
 example : selected 5 ⟨none, none, some (-1)⟩ = some [4, 3, 2, 1, 0] := by decide
 example : sliceLen 5 ⟨none, none, some (-1)⟩ = some 5 := by decide
 example : selected 6 ⟨some (-8), some 5, some 2⟩ = some [0, 2, 4] := by decide
+
+
+/-! ## Part 2 — declared metadata of derived operators (engine OpAlg, repaired tree) -/
+
+set_option linter.unusedSectionVars false
+section opmeta
+open Scico.OpAlg Scico.DType
+attribute [local instance] starConj
+variable {K : Type} [Field K] [StarRing K] [HasRe K]
+
+/-- **Declared shapes are the actual shapes.**  For every accepted linear expression (any depth,
+    any classes): evaluation returns an array with exactly the declared output size, the adjoint
+    one with exactly the declared input size, nothing is written beyond those sizes, and
+    `matrix_shape` is (output size, input size) = the shape of the denoted matrix. -/
+theorem C12_meta_sound (e : LExpr K) (m : Meta) (hm : infer e = .ok m) (hl : Lin e)
+    (hp : PlainDiagProducts e) (hK : RealK K ∨ AllC e) :
+    m.matrixShape = (m.outShape.size, m.inShape.size) ∧ m.matrixShape = dims e
+    ∧ (∀ x : Vc K, ((run e).eval x).size = m.outShape.size
+        ∧ ∀ i, m.outShape.size ≤ i → ((run e).eval x).get i = 0)
+    ∧ (∀ y : Vc K, ((run e).adj y).size = m.inShape.size
+        ∧ ∀ j, m.inShape.size ≤ j → ((run e).adj y).get j = 0) := by
+  obtain ⟨o, hb, hmd, hr⟩ := of_infer hm
+  obtain ⟨hS, h1, h2⟩ := build_sound e o hl hp hK hb
+  subst hmd
+  refine ⟨rfl, Prod.ext h1 h2, ?_, ?_⟩
+  · intro x
+    rw [hr]
+    refine ⟨hS.evSz x, fun i hi => ?_⟩
+    have := hS.ev x i
+    simp only [Obj.impl] at this ⊢
+    rw [this]; simp [Obj.m, Nat.not_lt.mpr hi]
+  · intro y
+    rw [hr]
+    refine ⟨hS.adSz y, fun j hj => ?_⟩
+    have := hS.ad y j
+    simp only [Obj.impl] at this ⊢
+    rw [this]; simp [Obj.n, Nat.not_lt.mpr hj]
+
+/-- **Non-conforming arrays are rejected, never broadcast.**  `__call__` evaluates an array exactly
+    when its shape is the declared input shape (and then returns `_eval` of it). -/
+theorem C12_reject_nonconforming (o : Obj K) (xsh : Shape) (x : Vc K) :
+    ((∃ v, o.callArr xsh x = .ok v) ↔ xsh = o.md.inShape)
+    ∧ (∀ v, o.callArr xsh x = .ok v → v = o.eval x) := by
+  unfold Obj.callArr
+  by_cases h : o.md.inShape = xsh
+  · simp [h]
+  · have h' : ¬ xsh = o.md.inShape := fun hh => h hh.symm
+    simp [h, h']
+
+/-- **The adjoint enforces shape and dtype.**  `LinearOperator.adj` evaluates an array exactly when
+    it has the declared output shape and (except for `MatrixOperator`, whose `adj` checks the shape
+    only) the declared output dtype. -/
+theorem C12_adj_enforces (o : Obj K) (ysh : Shape) (ydt : DT) (y : Vc K) :
+    (∃ v, o.adjArr ysh ydt y = .ok v)
+      ↔ (ysh = o.md.outShape ∧ (o.md.cls = .matrix ∨ ydt = o.md.outDt)) := by
+  unfold Obj.adjArr
+  by_cases hc : o.md.cls = .matrix
+  · by_cases hs : o.md.outShape = ysh
+    · simp [hc, hs]
+    · have hs' : ¬ ysh = o.md.outShape := fun hh => hs hh.symm
+      simp [hc, hs, hs']
+  · by_cases hd : o.md.outDt = ydt
+    · by_cases hs : o.md.outShape = ysh
+      · simp [hc, hd, hs]
+      · have hs' : ¬ ysh = o.md.outShape := fun hh => hs hh.symm
+        simp [hc, hd, hs, hs']
+    · have hd' : ¬ ydt = o.md.outDt := fun hh => hd hh.symm
+      simp [hc, hd, hd']
+
+/-- `jax.numpy.result_type` on scico's four dtypes is the join of a lattice: commutative,
+    associative, idempotent, with `float32` as bottom — so the declared dtype of a sum does not
+    depend on operand order or grouping. -/
+theorem C12_resultType_lattice (a b c : DT) :
+    resultType a b = resultType b a ∧ resultType (resultType a b) c = resultType a (resultType b c)
+    ∧ resultType a a = a ∧ resultType .f32 a = a := by
+  cases a <;> cases b <;> cases c <;> decide
+
+end opmeta
 
 end Scico.Props.C12
